@@ -314,6 +314,10 @@ func (w *world) step(class string, headers []string) (passed bool) {
 	} else {
 		res = refVerify(headers[0], w.origin, w.secrets, w.skew, w.clk.sec(), w.clk.frac())
 	}
+	if strings.HasPrefix(class, "header-wrapped-in-whitespace") {
+		// over the wire net/http strips optional whitespace, in-process it stays: either outcome tolerated
+		res = refResult{verdict: grayPass, why: "optional-whitespace-around-value"}
+	}
 	passed, rf, innerCalled := w.present(headers)
 	refName := map[refVerdict]string{mustRefuse: "must-refuse:", mayPass: "may-pass:", grayPass: "gray:"}[res.verdict] + res.why
 	sl := stepLog{ClockUnixNano: w.clk.t.UnixNano(), Class: class, Headers: headers, Ref: refName, Passed: passed}
@@ -372,8 +376,11 @@ func (w *world) step(class string, headers []string) (passed bool) {
 				if since < w.effCap {
 					elapsed := w.clk.t.Sub(ob.admittedAt)
 					when := "within-skew-of-admission"
-					if ob.peak >= time.Duration(w.skew)*time.Second {
+					if int64(ob.peak/time.Second) >= w.skew { // compared in seconds: skew*time.Second can overflow
 						when = "at-or-after-skew-since-admission"
+					}
+					if w.skew >= 1<<32 {
+						when += ":skew>=2^32s"
 					}
 					w.violation("replay-accepted:timestamp-still-valid:"+when,
 						fmt.Sprintf("proof accepted a second time %v after its first acceptance (the clock had been up to %v past it); its timestamp (%d) stayed inside the +-%ds window the whole time and only %d distinct proofs (capacity %d) were admitted in between",
@@ -713,6 +720,10 @@ func mutations() []mutation {
 			return one(t + strings.Repeat("x", 600))
 		}},
 		{"oversize-kid-500", withKid(strings.Repeat("k", 500))},
+		{"header-wrapped-in-whitespace(counted-not-judged)", func(w *world, rng *rand.Rand) []string {
+			_, t := valid(w, rng)
+			return one([]string{" " + t, t + " ", "\t" + t, " " + t + " "}[rng.IntN(4)])
+		}},
 		{"no-header", func(w *world, rng *rand.Rand) []string { return nil }},
 		{"empty-header", func(w *world, rng *rand.Rand) []string { return one("") }},
 		{"two-headers-both-valid", func(w *world, rng *rand.Rand) []string {
@@ -916,12 +927,55 @@ func (w *world) scenarioFarFuture(rng *rand.Rand) {
 	}
 }
 
+// scenarioBigSkew (domain audit): ProofAuthenticate's own validation accepts any
+// positive SkewSeconds, so the window/replay clauses are probed with skews of
+// hours, years and up to the int64-seconds range.
+func (w *world) scenarioBigSkew(rng *rand.Rand) {
+	p := w.tok(w.comp(rng, 0))
+	if !w.step("big-skew:first", one(p)) {
+		return
+	}
+	w.classes["big-skew:replay-presented"]++
+	w.step("big-skew:replay-immediately", one(p))
+	w.advance(time.Duration(1+rng.IntN(30)) * time.Second)
+	w.step("valid-fresh", one(w.tok(w.comp(rng, 0))))
+	w.step("big-skew:replay-after-another-admission", one(p))
+	w.step("ts-edge-out-plus-skew+1", one(w.tok(w.comp(rng, w.skew+1))))
+	if w.clk.sec()-w.skew-1 >= 0 {
+		w.step("ts-edge-out-minus-skew-1", one(w.tok(w.comp(rng, -(w.skew+1)))))
+	}
+}
+
+var bigSkews = []int64{3600, 86400, 31_536_000, 2_000_000_000, 4_294_967_296, 4_611_686_017, 4_611_686_018, 4_611_686_019, 9_223_372_036, 9_223_372_037, 1 << 40, 1 << 53, 1 << 61}
+
 func runWorld(r *mon.Run, arm uint64, idx int, viaHTTP bool) *world {
 	rng := r.Rand(arm, uint64(idx))
 	w := newWorld(idx, rng, viaHTTP)
+	if idx%12 == 7 && !viaHTTP {
+		w.skew = bigSkews[rng.IntN(len(bigSkews))]
+		w.disable = false
+	}
+	if idx%24 == 11 {
+		// clocks at and before 1970 (time.Time allows them; timestamps cannot be negative)
+		w.clk.t = time.Unix(int64(rng.IntN(40))-20, 0)
+	}
+	if idx%24 == 13 {
+		w.origin = randString(rng, originAlphabet, 255) // the validator's own upper bound
+	}
 	if err := w.build(); err != nil {
 		w.viols = append(w.viols, viol{sig: "harness:build", what: err.Error()})
 		return w
+	}
+	if idx%12 == 7 && !viaHTTP {
+		w.classes["config:big-skew-accepted-by-validation"]++
+		w.scenarioBigSkew(rng)
+		return w
+	}
+	if idx%24 == 11 {
+		w.classes["clock:at-or-before-1970"]++
+	}
+	if idx%24 == 13 {
+		w.classes["config:origin-255-chars"]++
 	}
 	switch idx % 6 {
 	case 1, 2:
@@ -1053,6 +1107,7 @@ func main() {
 		"refuse:ts-millisecond-stamp", "refuse:ts-nanosecond-stamp", "refuse:ts-292-years-ahead", "refuse:ts-292-years-behind", "refuse:ts-power-of-ten",
 		"refuse:ts-random-11-to-19-digits", "refuse:ts-maxint64-minus-k", "refuse:ts-maxint64-plus-1",
 		"far-future-script:replay-presented-after-retention-and-sweep",
+		"config:big-skew-accepted-by-validation", "big-skew:replay-presented", "clock:at-or-before-1970", "config:origin-255-chars",
 		"ttl-script:replay-presented:>=skew-after-admission:timestamp-still-valid",
 		"capacity-script:replay-presented:below-capacity", "capacity-script:replay-presented:at-or-above-capacity",
 		"step-back-script:replay-presented-after-clock-stepped-back",
